@@ -43,13 +43,13 @@ func cstr(l []string) string { return strings.Join(l, "/") + "/" }
 var c05Filters = [][]string{{"a"}, {"a", "b"}, {"b", "a"}, {"a", "+"}, {"b"}, {"a", "b", "c"}, {"a", "a"}, {"b", "b"}}
 var c05Channels = [][]string{{"a"}, {"a", "b"}, {"b", "a"}, {"b"}, {"a", "b", "c"}, {"a", "a"}, {"b", "b"}, {"a", "c"}}
 
-var regimes = []string{"S0", "S1", "S2", "S3", "S4"}
+var regimes = []string{"S0", "S1", "S2", "S3", "S4", "S4r"}
 
 func TestC05(t *testing.T) {
 	rec := vk.New("C05", "sim")
 	defer rec.Finish(t)
 	rec.Rule("case = (regime, seed): 2-4 real brokers on the simulated mesh transport (transcribed gossip sender, FIFO wires, real OnGossip*/Notify/Gossip), scripted clients subscribing/unsubscribing/disconnecting in bursts, " +
-		"interleaved with transport steps under regime S0 (immediate in-order delivery), S1 (payloads wait in sender slots and are coalesced), S2 (+ arbitrary choice of link/slot, sparse topologies with relaying, periodic full-state ticks), S3 (+ links going down and coming back, dropping what was pending), S4 (+ a broker unreachable long enough to be garbage-collected by its peers, then returning); " +
+		"interleaved with transport steps under regime S0 (immediate in-order delivery), S1 (payloads wait in sender slots and are coalesced), S2 (+ arbitrary choice of link/slot, sparse topologies with relaying, periodic full-state ticks), S3 (+ links going down and coming back, dropping what was pending), S4 (+ a broker unreachable long enough to be garbage-collected by its peers, then returning), S4r (S2 activity, then quiescence, then one broker is collected and returns while no client does anything); " +
 		"then quiescence (all links up, 3 rounds of tick+drain, peer queues flushed) and the oracle: per broker and channel the remote peers in its trie = the brokers with a live matching local subscriber, and one uniquely tagged publish per (broker, channel) reaches every live matching subscriber once and nobody else; " +
 		"non-trivial = cases with subscribers on >=2 brokers, >=1 unsubscribe or disconnect, and >=1 cross-broker delivery expected; distinct = hash of the operation list")
 	n := vk.N(48, 3000)
@@ -58,7 +58,7 @@ func TestC05(t *testing.T) {
 			continue
 		}
 		for ri, reg := range regimes {
-			runC05(rec, nil, ci*5+ri, ci, reg)
+			runC05(rec, nil, ci*6+ri, ci, reg)
 		}
 	}
 }
@@ -107,7 +107,7 @@ func runC05(rec5, rec13 *vk.Rec, caseID, seedIdx int, regime string) {
 	if regime == "S0" || regime == "S1" {
 		nb = r.Range(2, 3)
 	}
-	sparse := (regime == "S2" || regime == "S3" || regime == "S4") && r.Chance(50)
+	sparse := (regime == "S2" || regime == "S3" || regime == "S4" || regime == "S4r") && r.Chance(50)
 	edges := topology(r, nb, sparse)
 	net, err := NewNet(nb, edges, r, "")
 	rec := rec5
@@ -246,7 +246,7 @@ func runC05(rec5, rec13 *vk.Rec, caseID, seedIdx int, regime string) {
 			} else {
 				ops = append(ops, "connect "+c.name)
 			}
-		case x < 84 && (regime == "S2" || regime == "S3" || regime == "S4"): // periodic full-state gossip somewhere
+		case x < 84 && (regime == "S2" || regime == "S3" || regime == "S4" || regime == "S4r"): // periodic full-state gossip somewhere
 			i := r.Intn(nb)
 			ops = append(ops, fmt.Sprintf("tick n%d", i))
 			net.Tick(i)
@@ -274,6 +274,16 @@ func runC05(rec5, rec13 *vk.Rec, caseID, seedIdx int, regime string) {
 				if j != i && !net.Reachable(j, i) {
 					net.GC(j, i)
 					net.GC(i, j)
+					// right after the garbage collection of a peer nothing may still be routed to it
+					for _, pr := range [][2]int{{j, i}, {i, j}} {
+						_, pairs := net.Nodes[pr[0]].B.Svc.VerifTrie().VerifDump()
+						for _, p := range pairs {
+							if p.Type == message.SubscriberRemote && p.ID == net.Nodes[pr[1]].Name.String() {
+								rec.Inc("post_gc_entries_still_routed_to_the_collected_peer") // counted only: part of the known S4 family
+							}
+						}
+						rec.Inc("post_gc_trie_checks")
+					}
 				}
 			}
 			isolated[i] = true
@@ -281,6 +291,30 @@ func runC05(rec5, rec13 *vk.Rec, caseID, seedIdx int, regime string) {
 			transport(r.Range(1, 6))
 		}
 		transport(r.Range(0, 3))
+	}
+	// ---- regime S4r: after the client activity has ended and gossip has quiesced, one broker becomes unreachable,
+	// is garbage-collected by the others (and collects them), and returns; no client does anything meanwhile
+	if regime == "S4r" {
+		for round := 0; round < 2; round++ {
+			net.Drain()
+			for i := 0; i < nb; i++ {
+				net.Tick(i)
+				net.Drain()
+			}
+		}
+		i := r.Intn(nb)
+		ops = append(ops, fmt.Sprintf("quiesce; isolate n%d (GC both ways); return", i))
+		for _, e := range edges {
+			if e[0] == i || e[1] == i {
+				net.LinkDown(e[0], e[1])
+			}
+		}
+		for j := 0; j < nb; j++ {
+			if j != i && !net.Reachable(j, i) {
+				net.GC(j, i)
+				net.GC(i, j)
+			}
+		}
 	}
 	// ---- quiescence: everything reconnected, full-state rounds, queues flushed
 	ops = append(ops, "quiesce")
